@@ -22,15 +22,16 @@ type hookEv struct {
 }
 
 var (
-	hookOn        atomic.Bool
-	hookMu        sync.Mutex
-	hookBuf       []hookEv
-	pendingBlocks []hookEv
-	regBuf        []hookEv
-	unrecorded    atomic.Int64
-	hooksCont     bool
-	regLines      int
-	abiNames      map[uintptr]abiName
+	hookOn         atomic.Bool
+	hookMu         sync.Mutex
+	hookBuf        []hookEv
+	pendingBlocks  []hookEv
+	regBuf         []hookEv
+	unrecorded     atomic.Int64
+	hookAllocBytes atomic.Uint64
+	hooksCont      bool
+	regLines       int
+	abiNames       map[uintptr]abiName
 )
 
 type abiName struct {
@@ -87,6 +88,11 @@ func regLine() string {
 
 func init() {
 	verifhook.Set(func(ev int, a, b, c uintptr) {
+		// bytes the decoder's own allocator asked the runtime for (new blocks and direct allocations): exact and
+		// per call, unlike the process-wide counters of the runtime
+		if ev == verifhook.EvSpanBlock || ev == verifhook.EvMallocDirect {
+			hookAllocBytes.Add(uint64(a))
+		}
 		if ev >= verifhook.EvSlotStore {
 			// registry events are always kept: the sequential registry model (spec/RegSeq.tla) follows
 			// every lock section of the process.  All of them are emitted under the registry mutex.
